@@ -455,6 +455,17 @@ def cycle (p : Program) (fuel : Nat) (σ : SEnv) : SEnv × Option SFault :=
   | (σ', .ok _) => (σ', none)
   | (σ', .error f) => (σ', some f)
 
+def applyInputs (σ : SEnv) (ws : List (String × Val)) : SEnv :=
+  ws.foldl (fun σ (x, v) => sinsert x (erase v) σ) σ
+
+/-- Reference state after `n` cycles (meaningful as long as no cycle faulted). -/
+def runFrom (p : Program) (fuel : Nat) (ins : Inputs) : Nat → SEnv → SEnv
+  | 0, σ => σ
+  | n + 1, σ => (cycle p fuel (applyInputs (runFrom p fuel ins n σ) (ins n))).1
+
+def reportAt (p : Program) (fuel : Nat) (ins : Inputs) (n : Nat) (σ : SEnv) : Option SFault :=
+  (cycle p fuel (applyInputs (runFrom p fuel ins n σ) (ins n))).2
+
 end Spec
 
 /-! ## The guard `Strict` -/
